@@ -395,7 +395,11 @@ func (t *Tables) scan() {
 					}
 				case *ssa.Store, *ssa.FieldAddr, *ssa.DebugRef:
 				case *ssa.Slice:
-					t.elemMut[g] = true // conservatively: slices of arrays may be written through
+					// a slice of the table: harmless if it is only read (indexed for loads, measured, or handed to
+					// library callees that do not write through that parameter)
+					if !t.readOnlyUses(y, 0) {
+						t.elemMut[g] = true
+					}
 				default:
 					if !initf {
 						t.elemMut[g] = true
@@ -404,6 +408,64 @@ func (t *Tables) scan() {
 			}
 		})
 	}
+}
+
+// readOnlyUses: the slice value v is only read.
+func (t *Tables) readOnlyUses(v ssa.Value, depth int) bool {
+	if depth > 4 {
+		return false
+	}
+	for _, rf := range refs(v) {
+		switch z := rf.(type) {
+		case *ssa.IndexAddr:
+			for _, rf2 := range refs(z) {
+				switch rf2.(type) {
+				case *ssa.UnOp, *ssa.DebugRef:
+				default:
+					return false
+				}
+			}
+		case *ssa.Index, *ssa.Lookup, *ssa.Range, *ssa.DebugRef:
+		case *ssa.Slice:
+			if !t.readOnlyUses(z, depth+1) {
+				return false
+			}
+		case ssa.CallInstruction:
+			c := z.Common()
+			if b, ok := c.Value.(*ssa.Builtin); ok {
+				if b.Name() == "len" || b.Name() == "cap" {
+					continue
+				}
+				if b.Name() == "copy" && len(c.Args) == 2 && c.Args[1] == v && c.Args[0] != v {
+					continue // copied from
+				}
+				return false
+			}
+			args := callArgs(c)
+			callees := t.p.Callees(z)
+			if len(callees) == 0 {
+				return false
+			}
+			for _, g := range callees {
+				ef := t.p.Effects().Of(g)
+				if ef == nil {
+					return false
+				}
+				for i, a := range args {
+					if a == v && ef.WParams[i] != 0 {
+						return false
+					}
+				}
+				// the callee may also retain it: only argument-pure library functions are accepted
+				if !isLibFn(g) {
+					return false
+				}
+			}
+		default:
+			return false
+		}
+	}
+	return true
 }
 
 // Len: literal length of an immutable package-level string/slice.
